@@ -28,6 +28,10 @@ class CustomError(Exception):
     pass
 
 
+class HardStop(BaseException):
+    """What a stray sys.exit() / a cancelled task in user code raises: not an Exception subclass."""
+
+
 class Unconvertible(object):
     """A value whose conversion fails: its serialisation method raises."""
     def _serialize(self):
@@ -66,9 +70,11 @@ class World(object):
             def ok(*a, **k):
                 jj = k.pop("_j")
                 rec(jj)
+                if jj == 2:
+                    return {"echo": list(a), "kw": k, 1: "one", None: 0}    # (keys of several types: the JSON text has string keys)
                 return None if jj == NALIAS else {"echo": list(a), "kw": k}        # (one alias is a void method)
             ok = (lambda f, jj: (lambda *a, **k: f(*a, _j=jj, **k)))(ok, j)
-            ecls = rnd.choice(EXC + [CustomError])
+            ecls = rnd.choice(EXC + [CustomError, HardStop, SystemExit])
             etext = rnd.choice(["boom", "bad value 42", "x y z", "é fail"])
             self.excinfo[j] = (ecls.__name__, etext)
 
